@@ -211,7 +211,7 @@ class TimeDependentCorrelation(RealTimeEvolution):
             # didn't get psi_ground_state in resume_data, but might still have it in the results
             if 'psi_ground_state' not in self.results:
                 raise ValueError("psi_ground_state not saved in checkpoint results: can't resume!")
-        super().resume_run()
+        return super().resume_run()
 
     def get_resume_data(self):
         resume_data = super().get_resume_data()
